@@ -189,8 +189,82 @@ class Session:
         self.ev.append({"op": "permute", "arg": k, "ret": r, "seed": repr(seed), "g": pr, "before": before, "after": after})
         return r
 
+    # --- molfile texts
+    def read(self, lines, fmt, pfx, mol=None, floats=None, eol="\n", via_file=False):
+        from tucan.io import graph_from_molfile_text, graph_from_file
+        import textgen
+        k = self._next
+        self._next += 1
+        e = {"op": "read", "obj": k, "fmt": fmt, "pfx": pfx, "lines": list(lines), "floats": dict(floats or {})}
+        e["floats"].pop("", None)
+        if mol is not None:
+            e["mol"] = mol
+        text = eol.join(lines) + eol
+        try:
+            if via_file:
+                import tempfile
+                with tempfile.NamedTemporaryFile("w", suffix=".mol", delete=False, newline="") as f:
+                    f.write(text)
+                try:
+                    g = graph_from_file(f.name)
+                finally:
+                    os.unlink(f.name)
+            else:
+                g = graph_from_molfile_text(text)
+        except BaseException as ex:  # noqa
+            e["exc"] = type(ex).__name__
+            self.objs[k] = None
+            self.ev.append(e)
+            return None
+        pr = project(g)
+        if "bad" in pr:
+            e["exc"] = "BadGraph:" + pr["bad"]
+            self.objs[k] = None
+            self.ev.append(e)
+            return None
+        self.objs[k] = g
+        e["g"] = pr
+        self.ev.append(e)
+        # tag the object for later calls (same graph, attributes added)
+        tag_graph(g)
+        self.ev.append({"op": "derive", "obj": self._new(g), "from": k, "perm": list(range(g.number_of_nodes())),
+                        "kind": "nonidentity", "g": project(g)})
+        self.read_ids = getattr(self, "read_ids", {})
+        self.read_ids[self._next - 1] = k
+        return self._next - 1
+
+    def sametext(self, a, b, perm, pfx, strict=False, samegraph=False):
+        """a, b: ids returned by read(); the claim is verified by the spec on the DECODED molecules"""
+        ra, rb = self.read_ids.get(a, a), self.read_ids.get(b, b)
+        self.ev.append({"op": "sametext", "a": ra, "b": rb, "perm": list(perm), "pfx": pfx, "strict": strict, "samegraph": samegraph})
+
+    def write(self, k):
+        from tucan.io import graph_to_molfile
+        g = self.objs[k]
+        try:
+            text = graph_to_molfile(g)
+        except BaseException as ex:  # noqa
+            self.ev.append({"op": "raised", "call": "graph_to_molfile", "arg": k, "clause": "C09:graph_to_molfile-raised-" + type(ex).__name__})
+            return None
+        lines = text.splitlines()
+        if len(lines) > 1:
+            lines[1] = ""                           # the timestamp is the one thing that may differ between calls
+        xyz6 = [[six_decimals(g.nodes[a].get(c, 0)) for c in ("x_coord", "y_coord", "z_coord")] for a in g.nodes]
+        bonds = [[min(a, b), max(a, b), d.get("bond_type", 1)] for a, b, d in g.edges(data=True)]
+        self.ev.append({"op": "write", "arg": k, "lines": lines, "xyz6": xyz6, "bonds": bonds})
+        return lines
+
     def result(self, key, val, clause):
         self.ev.append({"op": "result", "key": key, "val": val, "clause": clause})
+
+
+def six_decimals(v):
+    """the value to six decimals, computed with exact decimal arithmetic (independent of the writer's formatting)"""
+    import decimal
+    with decimal.localcontext() as ctx:
+        ctx.prec = 2000
+        d = decimal.Decimal(float(v)).quantize(decimal.Decimal("0.000001"), rounding=decimal.ROUND_HALF_EVEN)
+        return format(d, "f")
 
 
 # ---------------------------------------------------------------- witnesses (proposed here, checked by TLC)
